@@ -31,6 +31,6 @@ elab "abstract_apps " f:term : tactic => withMainContext do
 /-- closes `f a₁ … = f b₁ …` goals whose arguments agree up to ring normalisation (the generated definitions are
 re-derived from the source on every run: an algebraically equivalent spelling of a formula must not break a proof
 whose content is "this attribute is that function of those quantities") -/
-syntax "ring_congr" : tactic
-macro_rules
-  | `(tactic| ring_congr) => `(tactic| first | rfl | ring | (congr 1 <;> ring_congr))
+macro "ring_congr" : tactic =>
+  `(tactic| first | rfl | ring1 | (congr 1 <;> first | rfl | ring1 | (congr 1 <;> first | rfl | ring1 |
+      (congr 1 <;> first | rfl | ring1 | (congr 1 <;> first | rfl | ring1 | (congr 1 <;> first | rfl | ring1))))))
